@@ -138,6 +138,18 @@ class Gen:
         steps = self.steps(n, 2, root=root, allow_p=path)
         if root == 'A' and not steps and not path:
             root = 'T'
+        if path and r.random() < 0.25:
+            # a later T chunk that repeats (is == to) the leading chunk, after a plain segment: only the leading chunk carries the root
+            import copy
+            i = next((j for j, st in enumerate(steps) if st[0] == 'P'), len(steps))
+            lead = steps[:i] or [['.', {'lit': r.choice(NAMES)}]] if r.random() < 0.7 else [['[', {'lit': 1}]]
+            rest = steps[i:] or [['P', {'lit': 'b'}]]
+            if rest[-1][0] != 'P':
+                rest = rest + [['P', {'lit': r.choice(STRS)}]]
+            again = copy.deepcopy(lead)
+            if again == [['[', {'lit': 1}]] and r.random() < 0.5:
+                again = [['[', {'lit': True}]]
+            steps = lead + rest + again
         return {'kind': 'repr', 'path': path, 'root': root, 'steps': steps}
 
     def seq_case(self, n=None, op=None):
